@@ -57,8 +57,12 @@ def setBoundaryLoop : List (String × String) → List (String × String) → Re
     else if !pyBoundary.contains c then (.error .badValue, st)
     else setBoundaryLoop r (st.map fun p => if p.1 == axis then (axis, c) else p)
 
-def setBoundaryConditions (bc : List (String × String)) : Res Unit × List (String × String) :=
-  setBoundaryLoop bc pyBoundaryDefaults
+/-- `cur` = the boundary conditions stored before the call.  When the source validates the whole input before
+storing anything (`bcStoresBeforeValidation = false`), a rejected call leaves `cur` in place. -/
+def setBoundaryConditions (cur bc : List (String × String)) : Res Unit × List (String × String) :=
+  match setBoundaryLoop bc pyBoundaryDefaults with
+  | (.ok (), st) => (.ok (), st)
+  | (.error e, st) => if bcStoresBeforeValidation then (.error e, st) else (.error e, cur)
 
 def setSamplingPolicy (p : String) : Res Unit := if pyPolicies.contains p then .ok () else .error .badValue
 def setInitStateProcessing (m : String) : Res Unit := if pyModes.contains m then .ok () else .error .badValue
@@ -89,7 +93,8 @@ def defaultStateEnvCheck (nspecies nenv : Nat) (cellEnv : List Int) : Res Unit :
 /-- `RDSystem(network, space, state, chemostats)`: the environment map is looked up only while a default
 state or a default chemostat map is generated (`state` / `chemostats` omitted or given as a dictionary) -/
 def systemEnvCheck (stateGiven chemGiven : Bool) (nspecies nenv : Nat) (cellEnv : List Int) : Res Unit :=
-  if stateGiven && chemGiven then .ok () else defaultStateEnvCheck nspecies nenv cellEnv
+  if systemSpaceChecksEnv && cellEnv.any (fun e => decide (e ≥ (nenv : Int))) then .error .outOfRange
+  else if stateGiven && chemGiven then .ok () else defaultStateEnvCheck nspecies nenv cellEnv
 
 /-! ### Positions, species, state access -/
 
